@@ -1,7 +1,7 @@
 /- C03 model driver: executes the models of `merge`/`merge_with` and the three laws on harness cases. -/
 import CweModel.Base.Proto
 import CweModel.C03.Model
-open Lean CweModel.Proto
+open Lean CweModel.Proto CweModel.Itv CweModel.MemRegion
 
 namespace CweModel.C03
 
@@ -14,11 +14,20 @@ structure Kind (V C : Type) where
   /-- concrete values on which membership is compared: all of them for 1-byte kinds, the
   boundary values of the given abstract values otherwise -/
   univ : List V → List C
+  /-- boundary values only (used inside maps and regions, where many slots are compared) -/
+  univSmall : List V → List C
   /-- executable form of the `wf` hypothesis of the kind's theorem -/
   wfB : V → Bool
   /-- the kind's `Top` represents every value of its size (hypothesis of the Intersect and
   MemRegion theorems) -/
   topMax : Bool
+  /-- `SizedDomain::new_top(bytesize)` -/
+  newTop : Nat → V
+  /-- `univ` of these values is ALL concrete values of the kind (then inclusion between
+  represented sets can be decided on it) -/
+  exact : List V → Bool
+  /-- branch-coverage tag of a case -/
+  tag : V → V → String
   name : String
 
 /-! ### kinds -/
@@ -39,8 +48,14 @@ def bvKind : Kind BvDom Bv where
   univ := fun vs => (vs.map fun v => match v with
     | .top s => [(s, 0), (s, 1), (s, 255)]
     | .val s x => [(s, x), (s, x + 1), (s, 0)]).flatten.eraseDups
+  univSmall := fun vs => (vs.map fun v => match v with
+    | .top s => [(s, 0), (s, 1), (s, 255)]
+    | .val s x => [(s, x), (s, x + 1), (s, 0)]).flatten.eraseDups
   wfB := fun _ => true
   topMax := true
+  newTop := .top
+  exact := fun _ => false
+  tag := fun a b => if a == b then "equal" else "differ"
   name := "bv"
 
 def parseTaint (j : Json) : Except String Taint :=
@@ -53,8 +68,12 @@ def taintKind : Kind Taint (Nat × Bool) where
   parse := parseTaint
   bytes := Taint.bytesize
   univ := fun vs => (vs.map fun v => [(v.bytesize, false), (v.bytesize, true)]).flatten.eraseDups
+  univSmall := fun vs => (vs.map fun v => [(v.bytesize, false), (v.bytesize, true)]).flatten.eraseDups
   wfB := fun _ => true
   topMax := false
+  newTop := .top
+  exact := fun _ => true
+  tag := fun _ _ => ""
   name := "taint"
 
 def parseData {T : Type} (p : Json → Except String T) (j : Json) : Except String (DataDom T) := do
@@ -77,10 +96,63 @@ def dataKind {T C : Type} [DecidableEq T] (K : Kind T C) : Kind (DataDom T) (Sym
     let u := K.univ comps
     let ids : List Int := [0, 1, 2, 3, 4]
     Sym.top :: (u.map Sym.abs ++ (ids.map fun i => u.map (Sym.rel i)).flatten)
+  univSmall := fun ds =>
+    let comps := (ds.map fun d => d.rel.map (·.2) ++ d.abs.toList).flatten
+    let u := K.univSmall comps
+    let ids : List Int := [0, 1, 2, 3, 4]
+    Sym.top :: (u.map Sym.abs ++ (ids.map fun i => u.map (Sym.rel i)).flatten)
   wfB := fun d => d.rel.all (fun e => K.wfB e.2 && K.bytes e.2 == d.size) &&
     d.abs.all (fun t => K.wfB t && K.bytes t == d.size)
   topMax := true
+  newTop := fun s => { size := s, rel := [], abs := none, top := true }
+  exact := fun ds => K.exact (ds.map fun d => d.rel.map (·.2) ++ d.abs.toList).flatten
+  tag := fun a b => if a.top || b.top then "topflag" else if a.rel.isEmpty && b.rel.isEmpty then "absolute" else "pointers"
   name := "data_" ++ K.name
+
+def optIntF (j : Json) (k : String) : Except String (Option Int) :=
+  match optF j k with
+  | some Json.null => pure none
+  | some v => do pure (some (← v.getInt?))
+  | none => pure none
+
+def parseIv (j : Json) : Except String IntervalDomain := do
+  return { interval := { w := ← natF j "w", start := ← intF j "s", stop := ← intF j "e", stride := ← natF j "st" },
+           upper := ← optIntF j "up", lower := ← optIntF j "lo", delay := ← natF j "d" }
+
+def ivWfB (a : IntervalDomain) : Bool :=
+  decide a.interval.WF && decide (1 < a.interval.w) && decide (a.interval.w ≤ 64) &&
+  a.upper.all (fun u => decide (InRange a.interval.w u)) &&
+  a.lower.all (fun l => decide (InRange a.interval.w l)) && decide (a.delay < 2 ^ 64)
+
+/-- boundary values of interval-domain values -/
+def ivBoundary (vs : List IntervalDomain) : List Int :=
+  (vs.map fun a =>
+    let I := a.interval
+    let st : Int := I.stride
+    [I.start, I.stop, I.start - 1, I.stop + 1, I.start + 1, I.stop - 1, I.start + st, I.stop - st,
+     I.start - st, I.stop + st, I.start + 2 * st, 0, smin I.w, smax I.w, smin I.w + 1, smax I.w - 1]
+     ++ a.lower.toList ++ a.upper.toList).flatten.eraseDups
+
+def ivKind : Kind IntervalDomain Int where
+  dom := ivDom
+  parse := parseIv
+  bytes := ivBytes
+  univ := fun vs =>
+    if vs.all (fun a => a.interval.w == 8) then (List.range 256).map (fun (n : Nat) => (n : Int) - 128)
+    else ivBoundary vs
+  univSmall := ivBoundary
+  wfB := ivWfB
+  topMax := true
+  newTop := fun s => IntervalDomain.newTop (8 * s)
+  exact := fun vs => vs.all (fun a => a.interval.w == 8)
+  tag := fun a b =>
+    let sm := signedMerge a b
+    let m := signedMergeAndWiden a b
+    if m == sm then (if sm.interval == a.interval || sm.interval == b.interval then "iv-absorbed" else
+      if sm.isTop then "iv-top" else "iv-below-threshold")
+    else if m.isTop then "iv-widened-to-top"
+    else "iv-widened-to-hint"
+  name := "iv"
 
 /-! ### evaluation of the laws on implementation outputs -/
 
@@ -102,8 +174,12 @@ def firstFail (checks : List (String × Bool)) : Option String :=
   (checks.find? (fun c => !c.2)).map (·.1)
 
 /-- laws on plain values: `memOf x c` = "`c` is represented by `x`" -/
-def lawsOn {X C : Type} (memOf : X → C → Bool) (U : List C) (a b : X) (o : Outs X) : Option String :=
+def lawsOn {X C : Type} (memOf : X → C → Bool) (U : List C) (a b : X) (o : Outs X)
+    (exact : Bool := false) : Option String :=
   firstFail [
+    -- inclusion form of law 2 (decidable only on an exhaustive universe): `γ b ⊆ γ a → γ m = γ a`
+    ("law2-contained", !exact || !(U.all fun c => !memOf b c || memOf a c) ||
+        (U.all fun c => memOf o.m c == memOf a c)),
     ("law1-merge", U.all fun c => !(memOf a c || memOf b c) || memOf o.m c),
     ("law1-merge_with", U.all fun c => !(memOf a c || memOf b c) || memOf o.mw c),
     ("law2-absorbed", U.all fun c => memOf o.m2 c == memOf o.m c),
@@ -112,13 +188,13 @@ def lawsOn {X C : Type} (memOf : X → C → Bool) (U : List C) (a b : X) (o : O
     ("law4-merge_with", U.all fun c => memOf o.mw c == memOf o.m c)]
 
 def verdictOf {X : Type} [DecidableEq X] [Repr X] (cls : String) (inDomain : Bool)
-    (specFail : Option String) (model impl : Outs X) : String :=
+    (specFail : Option String) (model impl : Outs X) (tag : String := "") : String :=
   let short (s : String) : String := ((s.replace "\n" " ").take 700).toString
   match inDomain, specFail with
   | true, some law =>
     s!"spec class={cls}-{law} expected=law-holds impl={short (reprStr impl)} model={short (reprStr model)}"
   | _, _ =>
-    if model = impl then s!"ok {cls} {if inDomain then "constrained" else "modelonly"}"
+    if model = impl then s!"ok {cls} {if inDomain then "constrained" else "modelonly"} {tag}"
     else s!"diff class={cls} model={short (reprStr model)} impl={short (reprStr impl)}"
 
 /-- one case on plain values of kind `K` -/
@@ -136,8 +212,9 @@ def handleVal {V C : Type} [DecidableEq V] [Repr V] (K : Kind V C) (j : Json) : 
     { m := m, mw := D.mergeWith a b, m2 := D.merge m b, maa := D.merge a a, mwaa := D.mergeWith a a }
   let inDomain := K.wfB a && K.wfB b && K.bytes a == K.bytes b
   let U := K.univ [a, b, impl.m, impl.mw, impl.m2, impl.maa, impl.mwaa, model.m, model.m2]
-  let fail := lawsOn D.mem U a b impl
-  return verdictOf cls inDomain fail model impl
+  let all := [a, b, impl.m, impl.mw, impl.m2, impl.maa, impl.mwaa, model.m, model.m2]
+  let fail := lawsOn D.mem U a b impl (K.exact all)
+  return verdictOf cls inDomain fail model impl (K.tag a b)
 
 def parseMap {V : Type} (p : Json → Except String V) (j : Json) : Except String (AList V) := do
   mapM' (fun e => do
@@ -178,7 +255,7 @@ def handleMap {V C : Type} [DecidableEq V] [Repr V] (K : Kind V C) (j : Json) : 
     (S != .intersect || K.topMax)
   -- pairs (key, concrete value)
   let U : List (Int × C) := (keys.map fun k =>
-    (K.univ (all.filterMap (·.get k))).map fun c => (k, c)).flatten
+    (K.univSmall (all.filterMap (·.get k))).map fun c => (k, c)).flatten
   -- reading of an absent key: nothing (Union) or what the kind's `Top` represents
   let topAt (k : Int) : Option V := ((a.get k).orElse fun _ => b.get k).map D.top
   let memOf (mp : AList V) (kc : Int × C) : Bool :=
@@ -186,6 +263,44 @@ def handleMap {V C : Type} [DecidableEq V] [Repr V] (K : Kind V C) (j : Json) : 
     | some v => D.mem v kc.2
     | none => S != .union && (match topAt kc.1 with | some t => D.mem t kc.2 | none => true)
   let fail := lawsOn memOf U a b impl
+  return verdictOf cls inDomain fail model impl
+
+def Kind.sized {V C : Type} (K : Kind V C) : SizedDom V C :=
+  { K.dom with size := K.bytes, newTop := K.newTop }
+
+def parseRegion {V : Type} (p : Json → Except String V) (j : Json) : Except String (Region V) := do
+  parseMap p (← field j "vals")
+
+/-- one case on `MemRegion`s over values of kind `K`. Concrete "values" are triples
+(position, size, concrete value of that size): `get(position, size)` represents the value. -/
+def handleMem {V C : Type} [DecidableEq V] [Repr V] (K : Kind V C) (j : Json) : Except String String := do
+  let a ← parseRegion K.parse (← field j "a")
+  let b ← parseRegion K.parse (← field j "b")
+  let implJ ← field j "impl"
+  let cls := s!"mem-{K.name}"
+  if let .ok s := implJ.getStr? then
+    return s!"spec class={cls}-panic expected=value impl={s}"
+  let impl ← parseOuts (parseRegion K.parse) implJ
+  let D := K.sized
+  let m := memMerge D a b
+  let model : Outs (Region V) :=
+    { m := m, mw := memMergeWith D a b, m2 := memMerge D m b, maa := memMerge D a a,
+      mwaa := memMergeWith D a a }
+  let all := [a, b, impl.m, impl.mw, impl.m2, impl.maa, impl.mwaa, model.m, model.m2]
+  let keys : List Int := ((all.map fun (r : Region V) => r.map (·.1)).flatten).eraseDups
+  let poss : List Int := (keys ++ (keys.take 2).map (· + 1)).eraseDups
+  let sizes : List Nat := ((all.map fun (r : Region V) => r.map (fun (c : Int × V) => K.bytes c.2)).flatten ++ [1, 8]).eraseDups
+  -- the theorem's hypotheses on the inputs: values well-formed, positive sizes, nothing top stored
+  -- (non-overlap and order hold by construction: the regions come from the real `insert`)
+  let okRegion (r : Region V) : Bool := r.all fun c => K.wfB c.2 && K.bytes c.2 > 0 && !K.dom.isTop c.2
+  let inDomain := okRegion a && okRegion b
+  let U : List (Int × Nat × C) := (poss.map fun p => (sizes.map fun s =>
+    (K.univSmall (all.map fun r => memGet D r p s)).map fun c => (p, s, c)).flatten).flatten
+  let memOf (r : Region V) (x : Int × Nat × C) : Bool := K.dom.mem (memGet D r x.1 x.2.1) x.2.2
+  let fail := lawsOn memOf U a b impl
+  -- a kind whose `Top` is not maximal (`Taint`) is outside the theorems, but inside the property:
+  -- all its law violations are reported under one class
+  let fail := if K.topMax then fail else fail.map fun _ => "nonmaximal-top"
   return verdictOf cls inDomain fail model impl
 
 def handleE (line : String) : Except String String := do
@@ -196,9 +311,18 @@ def handleE (line : String) : Except String String := do
   | "val", "bv" => handleVal bvKind j
   | "val", "taint" => handleVal taintKind j
   | "val", "data_bv" => handleVal (dataKind bvKind) j
+  | "val", "iv" => handleVal ivKind j
+  | "val", "data_iv" => handleVal (dataKind ivKind) j
+  | "map", "iv" => handleMap ivKind j
+  | "map", "data_iv" => handleMap (dataKind ivKind) j
   | "map", "bv" => handleMap bvKind j
   | "map", "taint" => handleMap taintKind j
   | "map", "data_bv" => handleMap (dataKind bvKind) j
+  | "mem", "bv" => handleMem bvKind j
+  | "mem", "iv" => handleMem ivKind j
+  | "mem", "taint" => handleMem taintKind j
+  | "mem", "data_bv" => handleMem (dataKind bvKind) j
+  | "mem", "data_iv" => handleMem (dataKind ivKind) j
   | _, _ => throw s!"unknown kind {kind}/{vk}"
 
 end CweModel.C03
